@@ -32,7 +32,7 @@ func init() {
 	c := eng.Register(&eng.Check{
 		ID:          "C17",
 		Title:       "String builtins obey the laws of prefix, suffix, slice and pad",
-		Rule:        "S = all strings of up to 4 symbols over {a, b, A, space, a 3-byte character} (781), T = those of up to 2 symbols (31), all integer positions from -2 to len+2: startWith/endWith/contains/find on S x T, left/right on S x in-range positions, mid on S x i x j, lpad/rpad on S x one-byte pads x lengths 0..8, replace on S x T x T, trim/lower/upper/len on S and on strings with tabs, line breaks and simply-cased non-ASCII letters, join/includes on all lists of up to 3 elements of T, regexp on 40 patterns x S against RE2 called directly, and the algebraic laws of the statement evaluated inside the language; compared with naive reference loops; distinct = distinct (builtin, result) pairs",
+		Rule:        "S = all strings of up to 4 symbols over {a, b, A, space, a 3-byte character} (781), T = those of up to 2 symbols (31), all integer positions from -2 to len+2: startWith/endWith/contains/find on S x T, left/right on S x in-range positions, mid on S x i x j, lpad/rpad on S x one-byte pads x lengths 0..8 and, for subjects of up to 2 bytes, four pads x every length up to 130 and around 256, 1024 and 4096, replace on S x T x T, trim/lower/upper/len on S and on strings with tabs, line breaks and simply-cased non-ASCII letters, join/includes on all lists of up to 3 elements of T, regexp on 40 patterns x S against RE2 called directly, and the algebraic laws of the statement evaluated inside the language; compared with naive reference loops; distinct = distinct (builtin, result) pairs",
 		TrustedBase: []string{"naive reference string functions in checks/c17.go", "Go regexp (RE2) called directly for the regexp builtin"},
 		Assumptions: []string{"len is the byte length (the measure under which left+right reassemble s)", "mid(s,i,j) with i>j, out-of-range positions for left/right/pad belong to C03 (no panic) only"},
 		Run:         runC17,
@@ -581,6 +581,18 @@ func runC17(w *eng.W) {
 		for _, p := range []string{"x", " "} {
 			for n := 0; n <= 8; n++ {
 				emit(StrFnCase{Fn: "pad", S: Bytes(s), T: Bytes(p), I: n})
+			}
+		}
+		// long fills (a ready-made run of pad characters is a natural shortcut): every length up to 130
+		// for the short subjects, the usual pads and one unusual one
+		if len(s) <= 2 {
+			for _, p := range []string{" ", "0", "x", "-"} {
+				for n := 9; n <= 130; n++ {
+					emit(StrFnCase{Fn: "pad", S: Bytes(s), T: Bytes(p), I: n})
+				}
+				for _, n := range []int{255, 256, 257, 1023, 1024, 1025, 4097} {
+					emit(StrFnCase{Fn: "pad", S: Bytes(s), T: Bytes(p), I: n})
+				}
 			}
 		}
 		emit(StrFnCase{Fn: "unary", S: Bytes(s)})
